@@ -9,16 +9,16 @@ TRUST = ("Trusted base: rustc/std, the sha2 crate, the simulator (its PRNG, CBOR
 
 CHECKS = {
  "C20": ("exploration", "§10 C20",
-   "2-8 (thorough: up to 16) shuttle threads each run 1-4 operations (each exactly one library call) drawn from {format, format_flat, tree_format, diagnostic_annotated, hex, register_tags, format-context read, known-value / function / parameter registry lookups, dcbor-level annotated diagnostic, codec/digest of an Arc-shared envelope, register_tags-then-ur_string, custom-tag registration then format, holding the registry lock while another thread formats, summaries / Display of responses (incl. early failure), requests, events and expressions} over the real registry code, every execution starting from uninitialised registries, under seeded Random and PCT(1-3) schedules. Oracles: completion (deadlock, re-entrant acquisition, poisoned lock, panic), every formatting result equals a text the call returns alone, linearizability of results against a monotone three-state model (S0 nothing initialised / S1 context initialised / S2 register_tags done) using invoke/return sequence stamps, identical digest/bytes for the shared envelope, ur_string after own register_tags never panics.",
+   "2-8 (thorough: up to 16) shuttle threads each run 1-4 operations (each exactly one library call) drawn from {format, format_flat, tree_format, diagnostic_annotated, hex, register_tags, format-context read, known-value / function / parameter registry lookups, dcbor-level annotated diagnostic, codec/digest of an Arc-shared envelope, register_tags-then-ur_string, custom-tag registration then format, holding the registry lock while another thread formats, summaries / Display of responses (incl. early failure), requests, events and expressions, registration of own entries in the parameter / function / known-value registries followed by look-up} on envelopes that include edge-of-type integers, over the real registry code, every execution starting from uninitialised registries, under seeded Random and PCT(1-3) schedules. Oracles: completion (deadlock, re-entrant acquisition, poisoned lock, panic), every formatting result equals a text the call returns alone, linearizability of results against a monotone three-state model (S0 nothing initialised / S1 context initialised / S2 register_tags done) using invoke/return sequence stamps, identical digest/bytes for the shared envelope, ur_string after own register_tags never panics.",
    "deterministic schedule simulation (shuttle Random/PCT) with linearizability check against a 3-state sequential model"),
  "C17": ("exploration", "§10 C17",
-   "Salting operations (add_salt, add_salt_with_len around 8, add_salt_in_range with lower bounds around 8, add_assertion_salted true/false, the _using variants, add_salt_instance, salted batches) on envelopes of serialized size 1 B - 10 KB (padding steers sizes across the rule's 64/160/320-byte switch points), every draw coming from the simulator-owned library RNG stream, plus hostile boundary draws through add_salt_using. Oracles: subject and prior assertions unchanged, exactly one 'salt' assertion of documented length, short requests refused, salted assertion found by predicate and carrying exactly one salt, independent saltings differ in digest, unsalted add deterministic.",
+   "Salting operations (add_salt, add_salt_with_len around 8, add_salt_in_range with lower bounds around 8, add_assertion_salted true/false, the _using variants, add_salt_instance, salted batches, decorated assertions whose core is obscured, lengths and ranges around 65536) on envelopes of serialized size 1 B - 10 KB (padding steers sizes across the rule's 64/160/320-byte switch points), every draw coming from the simulator-owned library RNG stream, plus hostile boundary draws through add_salt_using. Oracles: subject and prior assertions unchanged, exactly one 'salt' assertion of documented length, short requests refused, salted assertion found by predicate and carrying exactly one salt, independent saltings differ in digest, unsalted add deterministic.",
    "deterministic simulation over the library RNG seam (seeded stream + boundary draws)"),
  "C18": ("exploration", "§10 C18",
-   "Client parties build expressions, requests (dates stamped from the simulated clock: absent, integral, fractional, negative), responses (success, default-OK, failure, early failure) and events, send them through the transport; server parties parse directly and from bytes, with and without expected function. In-flight single mutations: add a result/error, remove it, retag the subject, replace the function. Oracles: parsed value equals the original, documented shape, listed malformations rejected.",
+   "Client parties build expressions, requests (dates stamped from the simulated clock: absent, integral, fractional, negative), responses (success, default-OK, failure, early failure) and events, send them through the transport; server parties parse directly and from bytes, with and without expected function. Functions and parameters range over numeric ids up to u64::MAX, named ones incl. the empty name, names with display names; they also travel as URs of their own types. In-flight single mutations: add a result/error, remove it, retag or untag the subject, replace the function. Oracles: parsed value equals the original (parameters read back from their assertions), documented shape, listed malformations rejected, UR type names and cross-type rejection.",
    "deterministic client/server simulation with simulated clock and single structural mutations in flight"),
  "C19": ("exploration", "§10 C19",
-   "Vendors contribute attachments (payloads of any shape from seeded histories, vendor, optional conformsTo) and types to replicas in different orders with duplicates; readers query all / by vendor / by conformsTo / both and the single-result form, and load the Attachments container; one attachment assertion is altered in flight (vendor removed, duplicated, not text; payload unwrapped; conformsTo duplicated). Oracles: result set equals the model's distinct (payload digest, vendor, conformsTo) triples filtered the same way; single-result errors for none/several; malformed reported invalid; type checks true exactly for added types.",
+   "Vendors contribute attachments (payloads of any shape from seeded histories, vendor, optional conformsTo) and types to replicas in different orders with duplicates; readers query all / by vendor / by conformsTo / both and the single-result form, and load the Attachments container (also onto an envelope that already carries its attachments), and validate single assertions directly; one attachment assertion is altered in flight (vendor removed, duplicated, not text; payload unwrapped; conformsTo duplicated). Oracles: result set equals the model's distinct (payload digest, vendor, conformsTo) triples filtered the same way; single-result errors for none/several; malformed reported invalid; type checks true exactly for added types.",
    "deterministic simulation of contribution orders and malformed-in-flight attachments vs. set model"),
  "C01": ("exploration", "§10 C01",
    "Seeded search over operation histories (3-30 ops: construct, add/remove/replace through every equivalent entry point incl. the batch forms, wrap, obscure with every action through all eighteen elide entry points, decrypt/uncompress, encode->decode) executed in lock-step against an independent model that computes every digest from the draft's rules with sha2; every position, accessor and walk order compared after every step.",
@@ -30,7 +30,7 @@ CHECKS = {
    "Seeded elision histories checked against the model's visibility rule position by position, un-elision offered right and wrong content; marker-residue scan of wire bytes.",
    "deterministic simulation, model-predicted visibility pattern + residue scan"),
  "C04": ("exploration", "§10 C04",
-   "Seeded operation histories over the whole op language; after each step the returned envelope is checked structurally through case() and its bytes are parsed by an independent grammar recogniser that recomputes all digests.",
+   "Seeded operation histories over the whole op language (incl. 8-20 assertions on one subject, nesting 5-10 deep, leaves up to 70 KB, envelopes whose subject is a node, obscured elements handed over as typed values); after each step the returned envelope is checked structurally through case() and its bytes are parsed by an independent grammar recogniser that recomputes all digests; elements the library encrypts / compresses in place are opened again and must hold what stood there; what the decoder accepts from the wire-fault engine must be well-formed too.",
    "deterministic simulation of seeded histories + independent grammar/digest recogniser"),
  "C05": ("exploration", "§10 C05",
    "Every document of the seeded histories is sent through CBOR-bytes, UR-string and CBOR-value transport and decoded; identity (library and model), positional case/digest equality and byte-equal re-encoding are checked.",
@@ -39,7 +39,7 @@ CHECKS = {
    "Receivers decode what a faulty network/storage delivers: byte-level corruption (flip, truncate, insert, delete, overwrite; single and double), 22 kinds of structure-aware CBOR mutations made by the simulator's own reader/writer (single, double, followed by a bit flip), random bytes; a sub-family enumerates EVERY single-bit flip and every structural mutation kind x site of each small encoding. Oracles: never panics; accepted => re-encodes to the input (modulo the #6.24 alias); mutations ill-formed by construction must be rejected.",
    "deterministic simulation with injected corruption faults; exhaustive single-fault enumeration per encoding"),
  "C08": ("fault_enumeration", "§10 C08",
-   "Owner encrypts (subject / wrapped whole, every subject case incl. a subject that is itself a node, or already elided / compressed / encrypted), element travels through the wire; faults: tampering of each field (ciphertext, nonce, auth tag, declared digest), bit flips anywhere in the encoding, wrong key, Byzantine key holder mis-declaring the digest (bare and node subject); a sub-family enumerates every single-bit flip of every field of small encrypted elements. Fault-free configuration checks identical round trip, digest kept, second encryption refused.",
+   "Owner encrypts (subject / wrapped whole, every subject case incl. a subject that is itself a node, or already elided / compressed / encrypted), element travels through the wire; faults: tampering of each field (ciphertext, nonce, auth tag, declared digest), bit flips anywhere in the encoding, wrong key, Byzantine key holder mis-declaring the digest (bare and node subject); a sub-family enumerates every single-bit flip of every field of small encrypted elements. Fault-free configuration checks identical round trip, digest kept, second encryption refused. A panic after a fault counts as a violation (the property demands an error).",
    "deterministic simulation with field-tamper / bit-flip / wrong-key / mis-declare faults; per-element single-bit enumeration"),
  "C09": ("exploration", "§10 C09",
    "Signers (Schnorr, ECDSA, Ed25519, SSH-Ed25519; further SSH variants and ML-DSA in thorough) sign with and without metadata, one by one, several in one call, and with signatures made apart from the envelope and attached afterwards; holders add assertions, obscure the subject / sibling assertions / other signers' signature objects, replace the subject; Byzantine parties attach non-signature objects, unsigned and foreign-signed metadata wrappers and signatures over other digests; the verifier receives the envelope through the transport. Oracles: has/verify_signature_from against a model of who validly signed which subject digest, threshold arithmetic for distinct key lists and t in 1..n+1 and None, returned metadata covered by an outer signature of the same key (checked with the raw verifier).",
@@ -48,7 +48,7 @@ CHECKS = {
    "Senders encrypt to recipient lists of size 1-5 (duplicates allowed; X25519 and ML-KEM-512/768, also mixed within one list; SSH-key senders) in subject form (leaf, node-shaped and compressed subjects), wrap-and-encrypt form and seal; recipients are added later; every listed and unlisted party tries to open its delivered copy; wrong sender/recipient keys and misrouted sealed envelopes for unseal.",
    "deterministic multi-party simulation over recipient configurations with wrong-key / misroute faults"),
  "C11": ("fault_enumeration", "§10 C11",
-   "Owner encrypts and splits under sampled policies (<=3 groups x <=4 members; more in thorough); custodians return shares through the transport; message loss decides which subset arrives - ALL subsets are enumerated when there are <=8 shares (<=12 in thorough); duplicated deliveries, foreign shares of a second split mixed in, a share envelope split a second time, boundary draws of the split RNG. Oracle: join = original decrypted subject iff the policy is met (pure subsets), never a different envelope and never a panic otherwise.",
+   "Owner encrypts and splits under sampled policies (<=3 groups x <=4 members; more in thorough); custodians return shares through the transport; message loss decides which subset arrives - ALL subsets are enumerated when there are <=8 shares (<=12 in thorough); duplicated deliveries, foreign shares of a second split mixed in, a share envelope split a second time, policies with 9-14 groups, boundary draws of the split RNG. Oracle: join = original decrypted subject iff the policy is met (pure subsets), never a different envelope and never a panic otherwise.",
    "deterministic simulation with message loss/duplication/misrouting; exhaustive subset enumeration per split"),
  "C12": ("exploration", "§10 C12",
    "Holders produce proofs for target sets (empty, single - also through the single-target entry points -, multiple, multi-position, nested, root, absent; the same targets asked of a full and of a partly elided copy of one document, in either order) of documents from seeded histories and send them; the verifier holds only the root digest; proofs are tampered in flight (byte and structural mutations) or misrouted (proof for another document / other targets). Oracles: produced iff all targets present; produced proof accepted; accepted => same root digest and every target visible (judged by the independent recogniser); disclosed elements lie on root-to-target paths and innermost targets are elided.",
